@@ -90,13 +90,9 @@ class Probe:
 
     @staticmethod
     def _same(a, b):
-        if a is b:
-            return True
-        if type(a) is SNum and type(b) is SNum and a.e.eq(b.e):
-            return True
-        if type(a) is not SNum and type(b) is not SNum:
-            return a == b
-        return False
+        # the loop binds `time` once per time step, so object identity tells the steps apart in
+        # every mode - also two consecutive steps at an equal float date (absorbed delay)
+        return a is b
 
     def _schedule(self, loop, target, signal=None, *, delay=None, at=None):
         if delay is None and at is None:
